@@ -370,6 +370,15 @@ feature('except-type-reads-body-binding',
 feature('lambda-in-comp-reads-comp-var',
         ['{B1:$X/assign} = 0', 'zz = [(lambda: {R1:$X@l})() for {B2:$X@c/comp-target} in _it()]', '{R2:$X}'],
         ['$X = 0; $X__s = {d1}', 'zz = [(lambda: _u({r1}, $X, {d2}))() for $X in _it()]', '{R2}'], binds='$X', c02=False, c03=False)
+feature('lambda-in-comp-behind-nested-comp',
+        ['{B1:$X/assign} = 0', 'zz = [([0 for q in _it()], (lambda: {R1:$X@l})()) for {B2:$X@c/comp-target} in _it()]', '{R2:$X}'],
+        ['$X = 0; $X__s = {d1}', 'zz = [([0 for q in _it()], (lambda: _u({r1}, $X, {d2}))()) for $X in _it()]', '{R2}'], binds='$X', c02=False, c03=False)
+feature('dictcomp-key-walrus-read-in-value',
+        ['zz = {({B1:$X/walrus-in-comp} := 0): {R1:$X} for q in _it()}', '{R2:$X}'],
+        ['zz = {_id($X := 0, $X__s := {d1}): {R1} for q in _it()}', '{R2}'], binds='$X', c02=False, c03=False)
+feature('global-statement-at-module-level',
+        ['global $X', 'if _o():', '    {B1:$X/assign} = 0', '{R1:$X}', '{B2:$X/assign} = 1', '{R2:$X}'],
+        ['?S global $X', 'if _o():', '    $X = 0; $X__s = {d1}', '{R1}', '$X = 1; $X__s = {d2}', '{R2}'], binds='$X', c02=True, c03=True)
 feature('comp-nested',
         ['[[{R1:$X@c2} for q in _it()] for {B1:$X@c/comp-target} in _it()]'],
         ['[[{R1} for q in _it()] for $X in _it() for $X__s in ({d1},)]'], c02=True, c03=False)
@@ -542,7 +551,7 @@ FEATURES['walrus-under-and']['coarse'] = 'conditional-walrus'
 FEATURES['walrus-in-ternary-branch']['coarse'] = 'conditional-walrus'
 
 for _n in ('star-import-project', 'star-import-conditional-names', 'star-import-stdlib', 'star-import-package', 'star-import-chain', 'star-import-chain3',
-           'star-import-then-rebind', 'rebind-then-star-import', 'star-import-all-listed', 'star-import-all-unlisted-keeps-earlier-binding'):
+           'star-import-then-rebind', 'rebind-then-star-import', 'star-import-all-listed', 'star-import-all-unlisted-keeps-earlier-binding', 'global-statement-at-module-level'):
     FEATURES[_n]['toplevel'] = True
 
 
